@@ -114,11 +114,9 @@ func (b *BoundedIterator) Seek(target []byte) bool {
 		target = b.start
 	}
 
-	// If target is at or after end bound, the seek will fail
-	if b.end != nil && bytes.Compare(target, b.end) >= 0 {
-		return false
-	}
-
+	// A target at or after the end bound still has to move the wrapped iterator:
+	// it lands on a key >= end (or is exhausted), so the seek fails below and
+	// the iterator is invalid instead of staying valid at its previous position
 	if b.Iterator.Seek(target) {
 		return b.checkBounds()
 	}
